@@ -6,7 +6,7 @@
 (* <<property id, predicate name>>.                                         *)
 (***************************************************************************)
 EXTENDS Naturals, Integers, Sequences, FiniteSets, SequencesExt,
-        FiniteSetsExt, Functions, TLC, Text, Vlq, SMap, Sem, Attr, Compose, Rope, RopeM, ReplReq, EncM, DecM, SplitM, ReplaceM, ConcatM, HashM, LeafM, CombineM
+        FiniteSetsExt, Functions, TLC, Text, Vlq, SMap, Sem, Attr, Compose, Rope, RopeM, ReplReq, EncM, DecM, SplitM, ReplaceM, ConcatM, HashM, LeafM, CombineM, TreeM
 
 NREG == 16
 EmptyHeap == [i \in 0..(NREG - 1) |-> Nil]
@@ -645,6 +645,9 @@ Checks(r, st) ==
               \cup (IF dom THEN {<<"C11", "announce_before_use">>} ELSE {})
               \cup (IF TreeOf(r, st).k \in {"orig", "raw"}
                       THEN {<<"DRIFT", "leaf_stream_follows_LeafM">>} ELSE {})
+              \cup (IF ModelledTree(TreeOf(r, st)) /\ TreeMDomain(TreeOf(r, st))
+                         /\ SharedNamesAgreeInTree(TreeOf(r, st))
+                      THEN {<<"DRIFT", "tree_stream_follows_TreeM">>} ELSE {})
               \cup (IF C09Domain(TreeOf(r, st))
                       THEN {<<"DRIFT", "combined_stream_follows_CombineM">>} ELSE {})
               \cup (LET t == TreeOf(r, st)
@@ -886,6 +889,16 @@ Holds(c, r, st) ==
                LET m == ReprOf(e, r.pieces)
                IN m.kind = "ok" => ("repr" \in DOMAIN o /\ o.repr.full = m.full /\ o.repr.ps = m.ps)
          IN same(r.a, r.out.a) /\ same(r.b, r.out.b)
+    [] c = <<"DRIFT", "tree_stream_follows_TreeM">> ->
+         LET model == StreamV(t, r.columns, r.final)
+             mine == StreamChunks(r.out.ev)
+         IN /\ model.kind = "ok"
+            /\ Len(model.chunks) = Len(mine)
+            /\ \A i \in 1..Len(mine) :
+                 /\ <<model.chunks[i].x, model.chunks[i].gl, model.chunks[i].gc>>
+                      = <<mine[i].x, mine[i].gl, mine[i].gc>>
+                 /\ Full(model.chunks[i].a) = Full(mine[i].a)
+            /\ model.end = r.out.end
     [] c = <<"DRIFT", "hash_feed_follows_HashM">> -> r.out.feed = Blank(Feed(t))
     [] c = <<"DRIFT", "lock_refuses_as_modelled">> -> r.waited
     [] c = <<"DRIFT", "schedule_replayed">> ->
